@@ -78,8 +78,8 @@ func le32(data []byte, at int) uint32 {
 
 //@ func (*GetDCMICapabilitiesInfoEnhancedSystemPowerStatisticsAttrsRsp).DecodeFromBytes
 //@ props C05 C17 C07
-//@ invariant 0 [powerstats.periods] 0 <= i && i <= periods && len(g.PowerRollingAvgTimePeriods) == periods &&
-//@    forall(qk, 0, i, int64(g.PowerRollingAvgTimePeriods[qk]) == int64(body[1+qk]%64)*specUnitSeconds(body[1+qk]/64)*1000000000)
+//@ invariant 0 [powerstats.periods] 0 <= iter && iter <= periods && len(g.PowerRollingAvgTimePeriods) == periods &&
+//@    forall(qk, 0, iter, int64(g.PowerRollingAvgTimePeriods[qk]) == int64(body[1+qk]%64)*specUnitSeconds(body[1+qk]/64)*1000000000)
 //@ ensures [C07.powerstats-accept] (result == nil) == (len(data) >= 4 && len(data) >= 4+int(data[3]))
 //@ ensures [C07.powerstats] result == nil ==> g.MajorVersion == data[0] && g.MinorVersion == data[1] && g.Revision == data[2] && len(g.PowerRollingAvgTimePeriods) == int(data[3]) &&
 //@    forall(qk, 0, int(data[3]), int64(g.PowerRollingAvgTimePeriods[qk]) == int64(data[4+qk]%64)*specUnitSeconds(data[4+qk]/64)*1000000000) &&
@@ -92,8 +92,8 @@ func le32(data []byte, at int) uint32 {
 
 //@ func (*GetDCMISensorInfoRsp).DecodeFromBytes
 //@ props C05 C17 C07 C16
-//@ invariant 0 [sensorinfo.ids] 0 <= i && i <= recordIDs && len(g.RecordIDs) == i &&
-//@    forall(qk, 0, i, g.RecordIDs[qk] == ipmi.RecordID(uint16(data[2+2*qk])|uint16(data[3+2*qk])<<8))
+//@ invariant 0 [sensorinfo.ids] 0 <= iter && iter <= recordIDs && len(g.RecordIDs) == iter &&
+//@    forall(qk, 0, iter, g.RecordIDs[qk] == ipmi.RecordID(uint16(data[2+2*qk])|uint16(data[3+2*qk])<<8))
 //@ ensures [C07.sensorinfo-accept] (result == nil) == (len(data) >= 2 && len(data) >= 2+2*int(data[1]))
 //@ ensures [C07+C16.sensorinfo] result == nil ==> g.Instances == data[0] && len(g.RecordIDs) == int(data[1]) && forall(qk, 0, int(data[1]), uint16(g.RecordIDs[qk]) == le16(data, 2+2*qk)) &&
 //@    aliases(g.Contents, data, 0, 2+2*int(data[1])) && aliases(g.Payload, data, 2+2*int(data[1]), len(data))
